@@ -67,6 +67,38 @@ def spec_payload(kind, v):
     raise ValueError(kind)
 
 
+def blob_cfg():
+    return vlib.cfg_text("TSpec", {}, postcondition="Accepted").replace("CONSTANTS\n", "")
+
+
+def build_foreign_obs(wd, mc_stats, tier, seed):
+    """Workloads for C16: tracks holding foreign blobs (entry counts the library never writes, flag bytes, trailing bytes) are
+    only OBSERVED - every getter and snapshot(), twice - after each blob is planted; TraceTrackBlobs requires the planted
+    payload to be still there and the observation phase to have written nothing."""
+    import formatchecks
+    res, bases, seqs = trackchecks.run_mc_track(wd, 1)
+    mc_stats.append({"instance": res["instance"], "states": res["states"], "transitions": res["generated"]})
+    rnd = random.Random(seed * 31 + 7)
+    mk = trackchecks.mk
+    n = 12 if tier == "quick" else 80
+    scripts = []
+    for i in range(n):
+        ops = [mk("create", snap=dict(bases["min"], relative_path=["music/a.mp3"])),
+               mk("create", snap=dict(bases["full"], relative_path=["music/b.flac"]))]
+        for t in (1, 2):
+            for kind, col in COL_OF_KIND.items():
+                for _ in range(20):
+                    v = formatchecks.rvalue(kind, rnd)
+                    if library_can_decode(kind, v):
+                        break
+                else:
+                    continue
+                ops.append(mk("foreign", t=t, col=col, v=v, payload=spec_payload(kind, v)))
+        scripts.append(ops)
+    schemas = ["2.18.0", "2.20.3", "2.21.2"] if tier == "quick" else vlib.V2
+    return [Workload(s, scripts, [], flags={"blobs": True, "rep": True}, tag="f", origin="seed-chosen foreign blobs") for s in schemas]
+
+
 def blob_setter_part(wd, tier, seed, vals):
     """Returns (violations, coverage-dict)."""
     import formatchecks
@@ -123,7 +155,7 @@ def blob_setter_part(wd, tier, seed, vals):
             scripts.append(ops)
     schemas = ["2.18.0", "2.21.2"] if tier == "quick" else vlib.V2
     ws = [Workload(s, scripts, [], flags={"blobs": True}, tag="b", origin="MCEngineFormat + MCTrackFields") for s in schemas]
-    cfg = vlib.cfg_text("TSpec", {}, postcondition="Accepted").replace("CONSTANTS\n", "")
+    cfg = blob_cfg()
     shards, summary = libcheck.run_and_validate(binary, ws, wd2, module="TraceTrackBlobs", cfg=cfg, watchdog=20)
     violations = []
     n = 0
